@@ -24,7 +24,7 @@ func deepToLiquid(value any, depth int) any {
 			return value
 		}
 		out := make(map[any]any, rv.Len())
-		for _, key := range rv.MapKeys() {
+		for _, key := range SortedMapKeys(rv) {
 			out[key.Interface()] = deepToLiquid(rv.MapIndex(key).Interface(), depth+1)
 		}
 		return out
